@@ -20,7 +20,8 @@ replayed on the real code by the harness).  What holds of it is `…_partial`: e
 avoids three explicit situations (`hazA`, `hazB`, `hazD` in Async/Spec.lean).  For the patch the
 hazards are vacuous and the same theorems hold for all schedules (`…_fixed`).
 -/
-import ParamVerif.Async.Lemmas
+import ParamVerif.Async.LemmasGhost
+import ParamVerif.Async.RxLemmas
 
 namespace ParamVerif.Async
 
@@ -134,12 +135,19 @@ theorem plain_assignment_cancels_for_good (c : Cfg) : PlainCancelsForGood c (Haz
   intro evs p v hz hl
   exact inv_plain c _ (inv_run c evs hz) p v hl
 
+theorem superseded_never_applied_after_newer (c : Cfg) : SupersededNeverApplied c (HazardFree c) := by
+  intro evs ev p v hz hm
+  rw [run_append] at hm ⊢
+  exact writes_applyEvent c _ ev (inv_run c evs (hazardFreeFrom_append c evs _ ev hz)) p v hm
+
 theorem syncing_empty_when_quiescent (c : Cfg) : SyncingEmptyWhenQuiescent c (HazardFree c) := by
   intro evs hz hq ha
   exact inv_quiescent c _ (inv_run c evs hz) hq ha
 
 /-- the code as it is in /repo, minus the three situations above -/
 theorem latest_wins_partial : LatestWins Cfg.current (HazardFree Cfg.current) := latest_wins _
+theorem superseded_never_applied_after_newer_partial :
+    SupersededNeverApplied Cfg.current (HazardFree Cfg.current) := superseded_never_applied_after_newer _
 theorem plain_assignment_cancels_for_good_partial : PlainCancelsForGood Cfg.current (HazardFree Cfg.current) :=
   plain_assignment_cancels_for_good _
 theorem syncing_empty_when_quiescent_partial : SyncingEmptyWhenQuiescent Cfg.current (HazardFree Cfg.current) :=
@@ -148,10 +156,45 @@ theorem syncing_empty_when_quiescent_partial : SyncingEmptyWhenQuiescent Cfg.cur
 /-- the proposed patch: every schedule -/
 theorem latest_wins_fixed : LatestWins Cfg.fixed (fun _ => True) :=
   fun evs p t x _ => latest_wins Cfg.fixed evs p t x (hazardFree_fixed evs)
+theorem superseded_never_applied_after_newer_fixed : SupersededNeverApplied Cfg.fixed (fun _ => True) :=
+  fun evs ev p v _ => superseded_never_applied_after_newer Cfg.fixed evs ev p v (hazardFree_fixed _)
 theorem plain_assignment_cancels_for_good_fixed : PlainCancelsForGood Cfg.fixed (fun _ => True) :=
   fun evs p v _ => plain_assignment_cancels_for_good Cfg.fixed evs p v (hazardFree_fixed evs)
 theorem syncing_empty_when_quiescent_fixed : SyncingEmptyWhenQuiescent Cfg.fixed (fun _ => True) :=
   fun evs _ => syncing_empty_when_quiescent Cfg.fixed evs (hazardFree_fixed evs)
+
+/-- the ghost field used in the statements is the schedule's most recent assignment to `p`, tasks
+numbered in the order of the asynchronous assignments (`lastOf`, Async/Spec.lean — the function the
+oracle uses) -/
+theorem last_is_most_recent_assignment (c : Cfg) (p : Nat) (evs : List Event) :
+    (run c evs).last p = lastOf p evs := last_eq_lastOf c p evs
+
+/-- all four, for the code as it is on hazard-free schedules and for the patch on every schedule -/
+theorem C10_partial : C10 Cfg.current (HazardFree Cfg.current) :=
+  ⟨latest_wins _, superseded_never_applied_after_newer _, plain_assignment_cancels_for_good _, syncing_empty_when_quiescent _⟩
+theorem C10_fixed : C10 Cfg.fixed (fun _ => True) :=
+  ⟨latest_wins_fixed, superseded_never_applied_after_newer_fixed, plain_assignment_cancels_for_good_fixed,
+   syncing_empty_when_quiescent_fixed⟩
+
+/-! ### expression pipelines (`r.rx.pipe(coroutine function)`, Async/Rx.lean) — no defect here -/
+
+/-- **Latest wins for an expression that pipes through a coroutine**: for every schedule of input
+changes, ticks and completions — in every order —, once the loop is idle and every evaluation
+requested so far has completed, the expression holds the result of the most recent evaluation
+(number `nTasks - 1`: evaluations are numbered in the order they were requested). -/
+theorem rx_latest_wins (evs : List Rx.Event) (hq : (Rx.run evs).ready = [])
+    (hd : Rx.allDone (Rx.run evs) = true) :
+    ∃ v, (Rx.run evs).futs ((Rx.run evs).nTasks - 1) = .done v ∧ (Rx.run evs).cur = some v := by
+  obtain ⟨m, h⟩ := Rx.rinv_run evs
+  have := Rx.rinv_latest_wins _ m h hq hd
+  cases hc : (Rx.run evs).cur with
+  | none => exact absurd hc this.2
+  | some v => exact ⟨v, by simpa [hc] using this.1, rfl⟩
+
+/-- the older evaluation completes last: its result is dropped -/
+example : (Rx.run [.set 20, .tick, .complete 1 20, .tick, .complete 0 10, .tick]).cur = some 20 ∧
+    (Rx.run [.set 20, .tick, .complete 1 20, .tick, .complete 0 10, .tick]).ready = [] ∧
+    Rx.allDone (Rx.run [.set 20, .tick, .complete 1 20, .tick, .complete 0 10, .tick]) = true := by decide
 
 /-! ### non-vacuity: hazard-free schedules of the code as it is that do exercise supersession -/
 
